@@ -75,7 +75,7 @@ func zz29ResolveChain() {
 	if verifrt.Param("CYCLES", 1) == 1 {
 		back = verifrt.NondetRange("back", -1, m-1)
 	}
-	rem := zz29Rems[verifrt.NondetRange("rem", 0, len(zz29Rems)-1)]
+	rem := zz29Rems[verifrt.NondetRange("rem", 0, verifrt.Param("REMS", len(zz29Rems))-1)]
 	depth := uint(verifrt.NondetU8("depth"))
 	if back >= 0 {
 		// an infinite chain needs a limit to terminate at all
